@@ -118,4 +118,83 @@ def gcfiFramesOk (a : Arch) (mask : Nat) (frames : List CfiFr) : Bool :=
     decide (4096 ≤ c.ret) && decide (c.ret ≤ a.regMax) && decide (stripOf a mask c.ret = c.ret) &&
     (c.n == 0 || !c.saves || (decide (2 ≤ c.n) && decide (c.fpv ≤ a.regMax) && decide (stripOf a mask c.fpv = c.fpv)))
 
+/-! ### the side condition from record-level facts (one-module worlds)
+
+  `gcfiSide` goes through the module table and the CFI range table; `gcfiSideOne` is the same
+  condition with a linear search over the module's list of STACK CFI records. Under `oneModOkB`
+  the second implies the first (`gcfiSide_of_one`, MdProofs/Lemmas/WalkGenSide.lean). -/
+
+/-- the record's range (relative to the module base) contains `instr` -/
+def CfiRec.covers (m : Module) (instr : Nat) (c : CfiRec) : Bool :=
+  decide (m.base + c.addr ≤ instr) && decide (instr < m.base + c.addr + c.size)
+
+/-- the first STACK CFI record of the list that covers `instr`: a linear search -/
+def cfiCover (m : Module) (sf : SymFile) (instr : Nat) : Option CfiRec :=
+  sf.cfis.find? (CfiRec.covers m instr)
+
+/-- `gcfiSide` with the linear search in place of the range tables; the outermost lookup address
+    lies inside the module (in a function without STACK CFI) -/
+def gcfiSideOne (m : Module) (sf : SymFile) (a : Arch) : Nat → Bool → List CfiFr → Bool
+  | instr, _, [] =>
+    decide (m.base ≤ instr) && decide (instr < m.base + m.size) && (cfiCover m sf instr).isNone
+  | instr, first, c :: rest =>
+    (match cfiCover m sf instr with
+     | none => false
+     | some rec =>
+       rec.adds.isEmpty &&
+       (if c.n = 0 then first && a.leafOk && tokenize rec.init == leafToks a
+        else tokenize rec.init == canonicalToks a (a.ptr * c.n) c.saves)) &&
+    gcfiSideOne m sf a (c.ret - a.adj) false rest
+
+/-- decidable form of the record-level well-formedness of a one-module world (`OneModOk`,
+    MdProofs/Lemmas/WalkGenSide.lean): the module has a range, every STACK CFI record is non-empty
+    and inside the module, the records are pairwise disjoint -/
+def disjB : List CfiRec → Bool
+  | [] => true
+  | c :: rest =>
+    rest.all (fun d => decide (c.addr + c.size ≤ d.addr) || decide (d.addr + d.size ≤ c.addr)) && disjB rest
+
+def oneModOkB (m : Module) (sf : SymFile) : Bool :=
+  decide (0 < m.size) && decide (m.base + m.size ≤ U64MAX) &&
+  sf.cfis.all (fun c => decide (0 < c.size) && decide (c.addr + c.size ≤ m.size)) && disjB sf.cfis
+
+/-! ### … worlds of several modules
+
+  The same with a linear search through the module list first (`modFind`): under `worldOkB` (modules
+  with ranges, pairwise disjoint; every symbol file `oneModOkB` for its module) `gcfiSideW` implies
+  `gcfiSide` (`gcfiSide_of_world`, MdProofs/Lemmas/WalkGenSideW.lean). -/
+
+def Module.has (m : Module) (instr : Nat) : Bool := decide (m.base ≤ instr) && decide (instr < m.base + m.size)
+
+/-- the first module of the list containing `instr`, with its position and symbol file -/
+def modFind (w : World) (instr : Nat) : Option (Module × SymFile) :=
+  match w.mods.zipIdx.find? (fun x => x.1.has instr) with
+  | none => none
+  | some (m, i) => ((w.syms[i]?).join).map fun sf => (m, sf)
+
+def modsDisjB : List Module → Bool
+  | [] => true
+  | c :: rest =>
+    rest.all (fun d => decide (c.base + c.size ≤ d.base) || decide (d.base + d.size ≤ c.base)) && modsDisjB rest
+
+def worldOkB (w : World) : Bool :=
+  modsDisjB w.mods && w.mods.all (fun m => decide (0 < m.size) && decide (m.base + m.size ≤ U64MAX)) &&
+  w.mods.zipIdx.all fun x => match (w.syms[x.2]?).join with
+    | some sf => oneModOkB x.1 sf
+    | none => true
+
+def gcfiSideW (w : World) (a : Arch) : Nat → Bool → List CfiFr → Bool
+  | instr, _, [] =>
+    (match modFind w instr with
+     | some (m, sf) => (cfiCover m sf instr).isNone
+     | none => false)
+  | instr, first, c :: rest =>
+    (match (modFind w instr).bind fun x => cfiCover x.1 x.2 instr with
+     | none => false
+     | some rec =>
+       rec.adds.isEmpty &&
+       (if c.n = 0 then first && a.leafOk && tokenize rec.init == leafToks a
+        else tokenize rec.init == canonicalToks a (a.ptr * c.n) c.saves)) &&
+    gcfiSideW w a (c.ret - a.adj) false rest
+
 end MdModel.Walk
